@@ -16,7 +16,7 @@ func init() {
 	register(&propDef{
 		ID: "C02",
 		Meta: propMeta{
-			Explanation: "Decides that every registered verifier is wired to live, fail-closed integrity primitives: (R02a) liveness — every digest comparison (hmac.Equal / ConstantTimeCompare, and the tabled string / bytes comparisons of JAR, DEB, legacy timestamps) in code reachable from a verifier sits in a block that is still reachable after inter-procedural propagation of constant nil/bool arguments (a comparison that is only reachable when a parameter is non-nil, while every call site passes nil, is dead code), and each verifier reaches at least the frozen number of live comparison sites and signature primitives; (R02b) fail-closed — from the mismatch edge of each comparison no success return is reachable without crossing the match edge of a comparison in the same function, and the result is never discarded; (R02c) the only switches that may disable a comparison are the skip-digests parameters: no comparison is control-dependent on a package-level boolean or an environment variable; (R02d) signature primitives (rsa/ecdsa verify, PkixVerify, SignerInfo.Verify, SignedData.Verify, OpenPGP, rpmutils.Verify) never have their failure dropped, and a failure reaches a success return only through another primitive (fallback idiom); (R02e) the verify command validates certificate chains unless --no-trust-chain was given, and SignerInfo.Verify checks the messageDigest attribute whenever attributes are present; (R02f) a digest comparison is never made conditional on another comparison's expected value; (R02g) the certificate reported as signer is chosen only under an equality that binds it to the verifying key; (R02h) a verifier loop never skips an entry unverified unless an empty result is refused afterwards, and the JAR manifest parser stores every named section it parsed (last occurrence wins, as in the signature-file check); (R02i) the element whose digest values are compared with the files is the element the XML signature covers (Signature.Reference), not a fresh lookup; (R02j) xmldsig.Verify requires exactly one SignedInfo (or parses the reference from the very element it hashes). (R02l) DigestPowershell and VerifyPowershell compare a line read by readLine with the begin marker built by detectUtf16 through the same chain of helpers (today: none, plain equality), so the digested text ends where the verifier starts reading the signature. (R02k) no Write into a hash.Hash (directly, or through an io.Writer parameter that receives one at some call site) is given bytes that went through TrimSpace, TrimFunc, Fields or Trim/TrimRight/TrimLeft with a cutset holding a space or a tab: every byte of a digested line counts.",
+			Explanation: "Decides that every registered verifier is wired to live, fail-closed integrity primitives: (R02a) liveness — every digest comparison (hmac.Equal / ConstantTimeCompare, and the tabled string / bytes comparisons of JAR, DEB, legacy timestamps) in code reachable from a verifier sits in a block that is still reachable after inter-procedural propagation of constant nil/bool arguments (a comparison that is only reachable when a parameter is non-nil, while every call site passes nil, is dead code), and each verifier reaches at least the frozen number of live comparison sites and signature primitives; (R02b) fail-closed — from the mismatch edge of each comparison no success return is reachable without crossing the match edge of a comparison in the same function, and the result is never discarded; (R02c) the only switches that may disable a comparison are the skip-digests parameters: no comparison is control-dependent on a package-level boolean or an environment variable; (R02d) signature primitives (rsa/ecdsa verify, PkixVerify, SignerInfo.Verify, SignedData.Verify, OpenPGP, rpmutils.Verify) never have their failure dropped, and a failure reaches a success return only through another primitive (fallback idiom); (R02e) the verify command validates certificate chains unless --no-trust-chain was given, and SignerInfo.Verify checks the messageDigest attribute whenever attributes are present; (R02f) a digest comparison is never made conditional on another comparison's expected value; (R02g) the certificate reported as signer is chosen only under an equality that binds it to the verifying key; (R02h) a verifier loop never skips an entry unverified unless an empty result is refused afterwards, and the JAR manifest parser stores every named section it parsed (last occurrence wins, as in the signature-file check); (R02i) the element whose digest values are compared with the files is the element the XML signature covers (Signature.Reference), not a fresh lookup; (R02j) xmldsig.Verify requires exactly one SignedInfo (or parses the reference from the very element it hashes). (R02o) every success return of csblob.checkPlistHashes behind the decoding of the list lies behind len(CDHashes) == len(the directories' hashes); (R02p) in cmdline/verify.verifyOne no iteration over a signature returns to the loop header without VerifyChain err==nil, other than through X509Signature == nil or NoChain. (R02n) DigestPowershell cuts the line ending in front of the signature block off the digested text only behind a HasSuffix / length test of that line (C11 R11q): a character put in place of the line ending is digested. (R02m) no return that is reached because one call's error is non-nil hands back, as the error, a different call result that was found nil on every way there (one read-and-reasoned exception: an unreachable branch of cmdline/verify.verifyOne). (R02l) DigestPowershell and VerifyPowershell compare a line read by readLine with the begin marker built by detectUtf16 through the same chain of helpers (today: none, plain equality), so the digested text ends where the verifier starts reading the signature. (R02k) no Write into a hash.Hash (directly, or through an io.Writer parameter that receives one at some call site) is given bytes that went through TrimSpace, TrimFunc, Fields or Trim/TrimRight/TrimLeft with a cutset holding a space or a tab: every byte of a digested line counts.",
 			NotDecided:  "that each format's protected byte set is completely covered by what is digested, chain-building semantics of crypto/x509, grafting / appended-content cases; those need the format specifications and concrete bytes.",
 			Assumptions: []string{"constant-time comparisons compare what they are given", "moduleReachAll over-approximates the call graph (interfaces and function values resolved by type)"},
 		},
@@ -1503,6 +1503,35 @@ func c02VerifiedObject(c *Ctx) {
 // one) but hashes one SignedInfo element; the two must be the same element.
 func c02SignedInfoUnique(c *Ctx) {
 	p := c.P
+	c.Rule("R02o", "the signed list of code-directory hashes is accepted only when it has one entry per code directory", 1)
+	for _, f := range plistCoversEveryDirectory(p) {
+		c.Check(f.OK, "R02o", f.Key, f.Pos, "", f.Detail, f.Path...)
+	}
+	c.Rule("R02p", "the verify command verifies the chain of every signature it reports, unless the signature has no certificate or chains are switched off", 1)
+	for _, f := range verifyCommandChecksEveryChain(p) {
+		c.Check(f.OK, "R02p", f.Key, f.Pos, "", f.Detail, f.Path...)
+	}
+	c.Rule("R02n", "in the digesting functions, bytes are cut off the end of a line only behind a test of what they are (shared with C11 R11q)", 1)
+	{
+		var roots []*ssa.Function
+		for _, spec := range []string{"lib/authenticode.DigestPowershell", "lib/authenticode.VerifyPowershell"} {
+			if f := p.Func(spec); f != nil {
+				roots = append(roots, f)
+			}
+		}
+		within := map[*ssa.Function]bool{}
+		for _, f := range roots {
+			within[f] = true
+		}
+		for _, f := range tailCutGuarded(p, within) {
+			c.Check(f.OK, "R02n", f.Key, f.Pos, "", f.Detail, f.Path...)
+		}
+	}
+	c.Rule("R02m", "a branch taken because a call failed does not return another error value that is known to be nil there (module-wide)", 0)
+	for _, f := range failureReturnsNilError(p) {
+		c.Check(f.OK, "R02m", f.Key, f.Pos, "", f.Detail)
+	}
+	c.runControl("R02m wrong error variable control (ctl/wraperr.Open)", "wraperr.Open", failureReturnsNilError)
 	c.Rule("R02l", "the PowerShell digester and verifier recognise the start of the signature block by the same test", 1)
 	for _, f := range psMarkerTestsAgree(p) {
 		c.Check(f.OK, "R02l", f.Key, f.Pos, "", f.Detail)
